@@ -569,7 +569,7 @@ func runC09(c *fw.Ctx) {
 		// every deriving operation once on a receiver with spare capacity, two derivations, fixed mutation list
 		c09Case(c, r, i, true)
 	})
-	c.Cases("scenarios", c.N(2000, 80000), false, func(i int, r *rng.R) { c09Case(c, r, -1, false) })
+	c.Cases("scenarios", c.N(2000, 800000), false, func(i int, r *rng.R) { c09Case(c, r, -1, false) })
 }
 
 func c09Case(c *fw.Ctx, r *rng.R, forceOp int, pinned bool) {
